@@ -24,9 +24,11 @@
    argument).  Missing from the fragment, by name: built-in functions typed through function
    types and unification of type expressions (fn:pair, fn:list:cons, fn:list:get, arithmetic,
    fn:struct:get, ...), the special typing of :match_field / :match_entry / :match_prefix /
-   :list:member, comparisons, let- and do-transforms, relation types inferred for undeclared
-   predicates, type variables, modes, temporal literals, tagged unions beyond what Types.v
-   expands. *)
+   :list:member, comparisons, let- and do-transforms, type variables, modes, temporal
+   literals, tagged unions beyond what Types.v expands.  Relation types inferred for
+   undeclared predicates are covered by the theorems at the end of this file
+   (`bounds_sound_inferred_partial`), mutual recursion between undeclared predicates
+   excepted. *)
 From Coq Require Import List ZArith Bool.
 From MV Require Import Datalog.Syntax Datalog.Interp Datalog.Solve Datalog.Lfp.
 From MV Require Import Analysis.Bounds Analysis.BoundsProofs.
